@@ -30,8 +30,15 @@ CLAIMED = {
                      "loops carry invariants (working lists are order-preserving sub-lists of the inputs, score tables track them through pop/np.delete, "
                      "results pair distinct input objects); postconditions from the statement: estimates/ground truths from the input, each at most once, "
                      "every estimate exactly once outside FP-validation, unpaired dropped in FP-validation incl. no ground truth, inputs untouched, no exception.",
-                note="numpy table operations are assumed contracts; _get_score_table and the result constructor are cut at contracts (pair validity is the "
-                     "abstract predicate the table encodes); 3-D objects; inputs are sets (pairwise distinct objects).", ref="5/C01"),
+                note="numpy table operations are assumed contracts; _get_score_table is verified per matching class (cells encode: same frame, radius of the "
+                     "ground truth's label beaten, label policy table); the matching-score functions and the result constructor are cut at assumed contracts; "
+                     "3-D objects; inputs are sets (pairwise distinct objects).", ref="5/C01"),
+    "C02": dict(text="Same function as C01 with dominance invariants: every stage-1 result is label-compatible and its score is optimal among all compatible "
+                     "pairs of objects unmatched when it was formed, every stage-2 result optimal among all remaining matchable pairs, no compatible pair "
+                     "is left after stage 1, none at all at return; the no-blocking-pair clauses of the statement follow as postconditions over the results and "
+                     "the objects left unmatched. maximize iff IoU mode is part of the contract.",
+                note="Assumes np.nanargmin/nanargmax return an optimal non-NaN cell (ties unspecified). 'Exactly the two-stage greedy assignment without ties' "
+                     "follows from step-wise optimality and is not a separate obligation.", ref="5/C02"),
 }
 NA_REASON = "check not built yet in this session (planned in DESIGN.md section 5); not claimed"
 ALL = [f"C{n:02d}" for n in range(1, 21)]
